@@ -1981,8 +1981,15 @@ func marshalInet(info TypeInfo, value interface{}) ([]byte, error) {
 	case unsetColumn:
 		return nil, nil
 	case net.IP:
+		if val == nil {
+			return nil, nil
+		}
 		t := val.To4()
 		if t == nil {
+			if len(val) != net.IPv6len {
+				// To16 returns nil as well, which would be written as null
+				return nil, marshalErrorf("cannot marshal. invalid ip address of %d bytes", len(val))
+			}
 			return val.To16(), nil
 		}
 		return t, nil
